@@ -134,6 +134,12 @@ def finite(x):
 def nat(k):
     return '%d%%nat' % k
 
+_nsamp = {}
+def samp(stream, d):
+    """evidence samples (lib keeps six): two each of streams A and B, one each of C and D"""
+    _nsamp[stream] = _nsamp.get(stream, 0) + 1
+    return d if _nsamp[stream] <= {'A': 2, 'B': 2}.get(stream, 1) else None
+
 _seen = {}
 def report(ctx, tag, what, **kw):
     """at most two violations per kind of failure; further ones are only counted (every failure is still a failed obligation)"""
@@ -246,8 +252,8 @@ def run_hess_stream(ctx, cases):
             ctx.obligation('hess case %d runs' % c['id'], False, 'predicate', r.get('error', 'non-finite'))
             continue
         ctx.case(signature=('A', c['p'], c['eps'], c['lin'], c['qd'], repr(c['direct'])),
-                 sample={'stream': 'A', 'p': c['p'], 'eps': c['eps'], 'lin': c['lin'], 'qd': c['qd'], 'direct': c['direct'],
-                         'impl_hess': r['hess'], 'impl_grad': r.get('grad')})
+                 sample=samp('A', {'stream': 'A', 'p': c['p'], 'eps': c['eps'], 'lin': c['lin'], 'qd': c['qd'], 'direct': c['direct'],
+                                   'impl_hess': r['hess'], 'impl_grad': r.get('grad')}))
         # ---- property predicate on the implementation: exact second partials up to round-off / (h_i h_j)
         Hx, Gx = poly_exact(c)
         if c['direct'] is None:
@@ -527,8 +533,9 @@ def run_pois_stream(ctx, base):
             raise RuntimeError('generator: bootstrap masks differ')
         keep = [i for i, mk in enumerate(r['mask']) if not mk]
         ctx.case(signature=('B', c['fn'], c['Bs'], c['p0'], c['eps'], c['multinom'], c['log'], repr(c['nested'])),
-                 sample={'stream': 'B', 'fn': c['fn'], 'p0': c['p0'], 'eps': c['eps'], 'multinom': c['multinom'], 'log': c['log'],
-                         'nested': c['nested'], 'shape': c['shape'], 'value': r.get('val')})
+                 sample=samp('B', {'stream': 'B', 'fn': c['fn'], 'p0': c['p0'], 'eps': c['eps'], 'multinom': c['multinom'], 'log': c['log'],
+                                   'nested': c['nested'], 'shape': c['shape'], 'Bs': c['Bs'], 'data': c['data'], 'value': r.get('val'),
+                                   'inner_H': r['inner'][0]['H']}))
         cf = closed_forms(c, r, keep)
         # ---- glue predicates
         glue = []
@@ -735,7 +742,7 @@ def run_chi2_stream(ctx, replay_case=None):
         if o['role'] == 'array':
             xs = o['x']
             scal = [byid[ops[k + 1 + t]['id']] for t in range(len(xs))]
-            ctx.count('C.array input'); ctx.case(signature=('C', xs, o['weights']), sample={'stream': 'C', 'x': xs, 'weights': o['weights'], 'impl': r.get('val', r.get('error'))})
+            ctx.count('C.array input'); ctx.case(signature=('C', xs, o['weights']), sample=samp('C', {'stream': 'C', 'x': xs, 'weights': o['weights'], 'impl': r.get('val', r.get('error'))}))
             sc_ok = all('error' not in s and s['scalar'] and abs(s['val'][0] - chi2_closed(x, o['weights'])) <= 1e-12 for s, x in zip(scal, xs))
             ctx.obligation('C%d sum_chi2_ppf scalar inputs = closed form' % o['id'], sc_ok, 'predicate', '' if sc_ok else repr(scal))
             if not sc_ok:
@@ -882,7 +889,7 @@ def run_history_stream(ctx, histories):
         ops = h['ops']
         ctx.count('D.histories'); ctx.count('D.calls', len(ops))
         ctx.case(signature=('D', [(o['fn'], o['Bs'][0][:3], o['func_kind'], o['multinom']) for o in ops]),
-                 sample={'stream': 'D', 'calls': [(o['fn'], o['func_kind'], o['multinom']) for o in ops]})
+                 sample=samp('D', {'stream': 'D', 'calls': [(o['fn'], o['func_kind'], o['multinom']) for o in ops], 'values': [digest(x) for x in got]}))
         badk = [k for k in range(len(ops)) if not same_result(got[k], ref[k])]
         ok = not badk
         ctx.obligation('D%d every call of the history returns what it returns on an empty cache' % h['hid'], ok, 'predicate',
